@@ -308,7 +308,7 @@ pub fn run_check(spec: CheckSpec, tier: Tier) -> i32 {
       let known = known.clone();
       hs.push(
         std::thread::Builder::new()
-          .stack_size(32 << 20)
+          .stack_size(128 << 20)
           .spawn(move || {
             let fam = &*spec.families[fi].fam;
             let mut local = FamStats::default();
